@@ -200,7 +200,7 @@ func runC14(h *H) {
 		// the idle notification channel holds
 		{"idle-during-burst", [][]string{{"SELECT A", "IDLE", "IDLE", "IDLE"}, {"SELECT A", `STORE 1:* +FLAGS.SILENT (\Seen)`, `STORE 1:* -FLAGS.SILENT (\Seen)`, "NOOP"}, {"STATUS A (MESSAGES)", "SELECT A", "NOOP"}}, rep / 10, 150},
 		// envelopes of a message and of its copy in another mailbox fetched concurrently
-		{"envelope-of-copies", [][]string{{"APPEND A", "SELECT A", "COPY 1:* C", "FETCH 1:* (ENVELOPE)", "APPEND A", "MOVE * B"}, {"SELECT C", "FETCH 1:* (ENVELOPE BODYSTRUCTURE)", "SELECT B", "FETCH 1:* (ENVELOPE)"}, {"SELECT A", "FETCH 1:* (ENVELOPE)", "UID FETCH 1:* (ENVELOPE RFC822.SIZE)"}}, rep / 6, 3},
+		{"envelope-of-copies", [][]string{{"APPEND A", "SELECT A", "COPY 1:* C", "FETCH 1:* (ENVELOPE)", "APPEND A", "MOVE * B"}, {"SELECT C", "FETCH 1:* (ENVELOPE BODYSTRUCTURE)", "SELECT B", "FETCH 1:* (ENVELOPE)"}, {"SELECT A", "FETCH 1:* (ENVELOPE)", "UID FETCH 1:* (ENVELOPE RFC822.SIZE)"}}, rep / 2, 3},
 		{"store-during-copy", [][]string{{"SELECT A", `STORE 1:* +FLAGS (\Seen)`, `STORE 1:* -FLAGS (\Seen)`}, {"SELECT A", "COPY 1:5 C"}, {"SELECT C", "SEARCH SEEN", "UID SEARCH ALL"}}, rep, 0},
 	}
 	for _, sc := range scenarios {
